@@ -536,13 +536,18 @@ Definition acq_ev (t : tid) (m : mode) (x : lk) : ev := ERaw t (acq_op (fst x) m
 Section Lock.
   Variables (t : tid) (m : mode).
 
+  (* when the acquisition has to wait, what it holds is a proper prefix of its own leaves *)
+  Definition blocked_at (w w' : world) (f0 : St) (base ls : list lk) : Prop :=
+    exists pre rest, ls = pre ++ rest /\ rest <> [] /\
+                     forall y, w_raw w' y = acq_all t m (base ++ pre) f0 y.
+
   Definition Plock (r : rawref) : Prop :=
     forall w, quiet w -> NoDup (locks_of (rleaves r)) ->
     if can_all m (rleaves r) (w_raw w)
     then exists w', run nopw t (rr_lock m r) w = (ODone VUnit, w') /\
                     eff w w' (acq_all t m (rleaves r) (w_raw w)) /\
                     w_trace w' = rev (map (acq_ev t m) (rleaves r)) ++ w_trace w
-    else exists w', run nopw t (rr_lock m r) w = (OBlocked, w').
+    else exists w', run nopw t (rr_lock m r) w = (OBlocked, w') /\ blocked_at w w' (w_raw w) [] (rleaves r).
 
   Lemma run_lock_loop todo :
     Forall Plock todo ->
@@ -553,7 +558,8 @@ Section Lock.
       then exists w', run nopw t (ordered_lock_from m (rr_lock m) done todo) w = (ODone VUnit, w') /\
                       eff w w' (acq_all t m (rsleaves (done ++ todo)) f0) /\
                       w_trace w' = rev (map (acq_ev t m) (rsleaves todo)) ++ w_trace w
-      else exists w', run nopw t (ordered_lock_from m (rr_lock m) done todo) w = (OBlocked, w').
+      else exists w', run nopw t (ordered_lock_from m (rr_lock m) done todo) w = (OBlocked, w') /\
+                      blocked_at w w' f0 (rsleaves done) (rsleaves todo).
   Proof.
     induction 1 as [|x r Hx Hr IH]; intros done w f0 Q ND Hw.
     - cbn [rsleaves flat_map can_all forallb]. exists w. split; [reflexivity|]. split.
@@ -580,9 +586,16 @@ Section Lock.
           -- rewrite (run_then_done _ _ _ _ _ VUnit w1); [exact R2|]. apply (run_catch_done _ _ _ _ _ _ _ R1).
           -- rewrite <- app_assoc in E2. simpl in E2. eapply eff_trans; eauto.
           -- rewrite T2, T1. rewrite map_app, rev_app_distr, app_assoc. reflexivity.
-        * destruct IH as [w2 R2]. exists w2.
-          rewrite (run_then_done _ _ _ _ _ VUnit w1); [exact R2|]. apply (run_catch_done _ _ _ _ _ _ _ R1).
-      + destruct Hx as [w1 R1]. exists w1. apply run_then_blocked. apply (run_catch_blocked _ _ _ _ _ _ R1).
+        * destruct IH as [w2 [R2 [pre [rest [Hs [Hne Hb]]]]]]. exists w2. split.
+          -- rewrite (run_then_done _ _ _ _ _ VUnit w1); [exact R2|]. apply (run_catch_done _ _ _ _ _ _ _ R1).
+          -- exists (rleaves x ++ pre), rest. split; [rewrite Hs; now rewrite app_assoc|]. split; [exact Hne|].
+             intros y. rewrite Hb. rewrite rsleaves_app, rsleaves_one. now rewrite !app_assoc.
+      + destruct Hx as [w1 [R1 [pre [rest [Hs [Hne Hb]]]]]]. exists w1. split.
+        * apply run_then_blocked. apply (run_catch_blocked _ _ _ _ _ _ R1).
+        * exists pre, (rest ++ rsleaves r). split; [rewrite Hs; now rewrite app_assoc|].
+          split; [destruct rest; [contradiction|discriminate]|].
+          intros y. rewrite Hb. cbn [app]. rewrite acq_all_app. apply acq_all_ext. intros z.
+          apply Hw.
   Qed.
 
   Lemma run_rr_lock r : Plock r.
@@ -592,7 +605,8 @@ Section Lock.
       rewrite andb_true_r. rewrite (run_leaf_lock t m k l w Q).
       destruct (can1 k m (w_raw w l)).
       + eexists. split; [reflexivity|]. split; [apply eff_after_raw; exact I|reflexivity].
-      + eexists. reflexivity.
+      + eexists. split; [reflexivity|]. exists [], [(k, l)]. split; [reflexivity|]. split; [discriminate|].
+        intros y. reflexivity.
     - change (rr_lock m (ROwned u inner)) with (ordered_lock_from m (rr_lock m) [] inner).
       change (rleaves (ROwned u inner)) with (rsleaves inner) in *.
       apply (run_lock_loop inner IH [] w (w_raw w) Q ND (fun _ => eq_refl)).
@@ -604,7 +618,7 @@ Section Lock.
     then exists w', run nopw t (ordered_lock m rs) w = (ODone VUnit, w') /\
                     eff w w' (acq_all t m (rsleaves rs) (w_raw w)) /\
                     w_trace w' = rev (map (acq_ev t m) (rsleaves rs)) ++ w_trace w
-    else exists w', run nopw t (ordered_lock m rs) w = (OBlocked, w').
+    else exists w', run nopw t (ordered_lock m rs) w = (OBlocked, w') /\ blocked_at w w' (w_raw w) [] (rsleaves rs).
   Proof.
     intros Q ND.
     apply (run_lock_loop rs (proj2 (Forall_forall _ _) (fun x _ => run_rr_lock x)) [] w (w_raw w) Q ND (fun _ => eq_refl)).
